@@ -23,6 +23,10 @@ PROPS['C04'] = {
         '(*tree.Tree).clearBitSetsRecur', '(*tree.Tree).ClearBitSets',
         '(*hashmap.HashMap).Value', '(*hashmap.HashMap).PutValue', '(*hashmap.HashMap).rehash', 'hashmap.NewHashMap',
         'tree.NewEdgeIndex', '(*tree.EdgeIndex).AddEdgeCount',
+        '(*tree.Tree).computeEdgeHashesRightRecur', '(*tree.Tree).computeEdgeHashesLeftRecur',
+        ('(*tree.Tree).fillRightBitSet', {'match': [r'^callsite', r'^post', r'^inv']}), ('(*tree.Tree).UpdateBitSet', {'match': [r'^callsite']}),
+        ('(*tree.Tree).tipEdgesRecur', {'match': [r'^post', r'^inv']}), ('(*tree.Tree).TipEdges', {'match': [r'^post', r'^inv']}),
+        ('(*tree.Tree).edgesRecur', {'match': [r'^post', r'^inv']}), ('(*tree.Tree).internalEdgesRecur', {'match': [r'^post', r'^inv']}), ('(*tree.Tree).InternalEdges', {'match': [r'^post', r'^inv']}),
     ],
     'lemma_files': [],
     'trusted_base': TB_COMMON,
@@ -299,7 +303,8 @@ PROPS['C03'] = {
                   ('(*tree.Tree).InternalEdges', {'match': [r'^post', r'^inv']}),
                   '(*tree.Tree).RemoveEdges', '(*tree.Tree).unconnectNode',
                   ('(*tree.Tree).removeSingleNodesRecur', {'match': [r'^callsite', r'^inv']}),
-                  '(*tree.Node).ParentEdge', '(*tree.Tree).GraftTreeOnTip'],
+                  '(*tree.Node).ParentEdge', '(*tree.Tree).GraftTreeOnTip',
+                  ('(*tree.Tree).tipEdgesRecur', {'match': [r'^post', r'^inv']}), ('(*tree.Tree).TipEdges', {'match': [r'^post', r'^inv']})],
     'trusted_base': TB_COMMON,
     'assumptions': A_COMMON,
     'not_decided': ['acyclicity / connectivity after each surgery (A-GRAPH: lemmas L1-L9)', 'counting clauses (branches = nodes - 1; all = internal + external)', 'global symmetric adjacency as a quantified invariant'],
@@ -325,6 +330,8 @@ PROPS['C09'] = {
     'level_note': 'AddEdgeCount / AddBipartition / LeastCommonAncestorUnrooted / StarTreeFromTree / ReinitIndexes enter through assumed thin contracts; "number of branches in a class" = "number of trees containing the split" needs distinct branches of one tree to have distinct splits (unrooted, no degree-2 node) which UnRoot establishes for rooted input; "and no other split" in the output tree rests on the LCA stretch contract and A-GRAPH; rounding of cutoff*float64(n) (A-FP)',
     'packages': ['./tree', './hashmap'],
     'functions': [('tree.Consensus', {'match': [r'^callsite', r'^post', r'^inv']}), '(*tree.EdgeIndex).AddEdgeCount',
+                  ('(*tree.Tree).AddBipartition', {'match': [r'^callsite', r'^step', r'^post', r'^inv']}),
+                  ('tree.StarTreeFromTree', {'match': [r'^callsite']}),
                   ('(*tree.EdgeIndex).Edges', {'match': [r'^post', r'^inv', r'^typeassert', r'^nil', r'^bounds', r'^pre']}),
                   '(*tree.Edge).HashCode'],
     'lemma_files': ['tree'],
